@@ -1843,10 +1843,17 @@ func (t *http2Client) keepalive() {
 				outstandingPing = false
 				t.kpDormant = true
 				t.kpDormancyCond.Wait()
-				// Only bytes read after waking up count as read activity for
-				// the ping that is about to be sent: a byte read while dormant
-				// must not cancel that ping's timeout.
-				prevNano = atomic.LoadInt64(&t.lastRead)
+				t.kpDormant = false
+				t.mu.Unlock()
+				// A byte read while dormant is read activity like any other:
+				// the next ping is due kp.Time after it (possibly right away),
+				// and it must not be mistaken for a response to that ping.
+				if lastRead := atomic.LoadInt64(&t.lastRead); lastRead > prevNano {
+					timer.Reset(time.Duration(lastRead) + t.kp.Time - time.Duration(time.Now().UnixNano()))
+					prevNano = lastRead
+					continue
+				}
+				t.mu.Lock()
 			}
 			t.kpDormant = false
 			t.mu.Unlock()
